@@ -74,8 +74,13 @@ class VLoop(asyncio.SelectorEventLoop):
         self.transports.append(tr)
         if self.network is not None:
             self.network.attach(tr)
-        # real endpoint creation suspends at least once
-        await asyncio.sleep(0)
+        # real endpoint creation suspends at least once; like asyncio, a cancellation in that window closes the new transport
+        try:
+            await asyncio.sleep(0)
+        except BaseException:
+            tr.closed = True
+            tr.closed_at = self.time()
+            raise
         protocol.connection_made(tr)
         return tr, protocol
 
